@@ -140,22 +140,37 @@ InitNode == [x \in NodeIds |->
                             wees |-> {<<n, 1>> : n \in {m \in Init : ParentOf[m] = x}} \cup {<<e[2], 1>> : e \in {f \in InitWatch : f[1] = x}}]
    ELSE NoNode]
 
+IV == [node |-> InitNode, counter |-> Cardinality(Init),
+       pst |-> [p \in Pids |-> IF p \in {UP, DWP, RP} \/ (p[2] = 1 /\ p[1] \in Init) THEN "running" ELSE "none"],
+       pre |-> [p \in Pids |-> IF p[2] = 1 /\ p[1] \in Init THEN 1 ELSE 0],
+       psn |-> [p \in Pids |-> 0],
+       ninc |-> [n \in Names |-> IF n \in Init THEN 1 ELSE 0],
+       lockh |-> [p \in Pids |-> NoS],
+       pc |-> [t \in Threads |-> IF Len(Prog[t]) = 0 THEN "done" ELSE "call"], ip |-> [t \in Threads |-> 1],
+       tl |-> [t \in Threads |-> [did |-> FALSE, was |-> FALSE]],
+       spc |-> [s \in Stoppers |-> "idle"], sp |-> [s \in Stoppers |-> NoPid], slist |-> [s \in Stoppers |-> <<>>],
+       sbr |-> [s \in Stoppers |-> {}], bpar |-> [s \in Stoppers |-> NoPid],
+       fl |-> [n \in Names |-> NoFlight],
+       dlv |-> [e \in TestPids \X TestPids |-> 0], terms |-> [p \in Pids |-> 0]]
+
 Init0 ==
-  /\ node = InitNode /\ counter = Cardinality(Init)
-  /\ pst = [p \in Pids |-> IF p \in {UP, DWP, RP} \/ (p[2] = 1 /\ p[1] \in Init) THEN "running" ELSE "none"]
-  /\ pre = [p \in Pids |-> IF p[2] = 1 /\ p[1] \in Init THEN 1 ELSE 0]
-  /\ psn = [p \in Pids |-> 0]
-  /\ ninc = [n \in Names |-> IF n \in Init THEN 1 ELSE 0]
-  /\ lockh = [p \in Pids |-> NoS]
+  /\ node = IV.node /\ counter = IV.counter /\ pst = IV.pst /\ pre = IV.pre /\ psn = IV.psn /\ ninc = IV.ninc /\ lockh = IV.lockh
   /\ dwq = <<>> /\ dwpc = "idle" /\ dwm = <<NoPid, 0>>
-  /\ pc = [t \in Threads |-> IF Len(Prog[t]) = 0 THEN "done" ELSE "call"] /\ ip = [t \in Threads |-> 1]
-  /\ tl = [t \in Threads |-> [did |-> FALSE, was |-> FALSE]]
-  /\ spc = [s \in Stoppers |-> "idle"] /\ sp = [s \in Stoppers |-> NoPid] /\ slist = [s \in Stoppers |-> <<>>]
-  /\ sbr = [s \in Stoppers |-> {}] /\ bpar = [s \in Stoppers |-> NoPid]
-  /\ fl = [n \in Names |-> NoFlight]
-  /\ sysst = "up"
-  /\ dlv = [e \in TestPids \X TestPids |-> 0] /\ terms = [p \in Pids |-> 0] /\ owed = {}
+  /\ pc = IV.pc /\ ip = IV.ip /\ tl = IV.tl
+  /\ spc = IV.spc /\ sp = IV.sp /\ slist = IV.slist /\ sbr = IV.sbr /\ bpar = IV.bpar
+  /\ fl = IV.fl /\ sysst = "up"
+  /\ dlv = IV.dlv /\ terms = IV.terms /\ owed = {}
   /\ viol = {} /\ wit = {} /\ last = <<"init">>
+
+\* back to the initial state (trace validation: a new history begins)
+Reset ==
+  /\ node' = IV.node /\ counter' = IV.counter /\ pst' = IV.pst /\ pre' = IV.pre /\ psn' = IV.psn /\ ninc' = IV.ninc /\ lockh' = IV.lockh
+  /\ dwq' = <<>> /\ dwpc' = "idle" /\ dwm' = <<NoPid, 0>>
+  /\ pc' = IV.pc /\ ip' = IV.ip /\ tl' = IV.tl
+  /\ spc' = IV.spc /\ sp' = IV.sp /\ slist' = IV.slist /\ sbr' = IV.sbr /\ bpar' = IV.bpar
+  /\ fl' = IV.fl /\ sysst' = "up"
+  /\ dlv' = IV.dlv /\ terms' = IV.terms /\ owed' = {}
+  /\ viol' = {} /\ wit' = {} /\ last' = <<"init">>
 
 \* ---------------------------------------------------------------- single-flight spawn
 \* the flight's fn returned: DoChan hands the result to every waiter and forgets the key
